@@ -234,15 +234,26 @@ func TestVerifC11Proxy(t *testing.T) {
 	defer bk.stop()
 
 	replay := c11ReplayCase("proxy")
-	want := func(target string) bool { return replay == nil || replay.Target == target }
+	sreplay := c11ReplayStream("proxy")
+	want := func(target string) bool {
+		if sreplay != nil {
+			return sreplay.Target == target
+		}
+		return replay == nil || replay.Target == target
+	}
 	var addr string
 	var stop func()
 	// 1. ready proxy in front of the live broker
 	if want("proxy") {
 		addr, stop = c11pStartProxy(t, []string{bk.addr}, true, bk.addr)
-		c11RunMatrix(r, c11Matrix{target: "proxy", addr: addr, salt: 5000000, requireReply: true, scale: 1, partitionZeroOnly: true, replay: replay})
-		if replay == nil {
+		if sreplay == nil {
+			c11RunMatrix(r, c11Matrix{target: "proxy", addr: addr, salt: 5000000, requireReply: true, scale: 1, partitionZeroOnly: true, replay: replay})
+		}
+		if replay == nil && sreplay == nil {
 			c11RunSweep(r, c11Matrix{target: "proxy", addr: addr, salt: 5000000, requireReply: true}, r.N(2, 100), true)
+		}
+		if replay == nil {
+			c11RunStreams(r, c11Matrix{target: "proxy", addr: addr, salt: 5000000, requireReply: true, partitionZeroOnly: true}, r.N(200, 3000), sreplay)
 		}
 		stop()
 	}
@@ -273,7 +284,13 @@ func TestVerifC11Proxy(t *testing.T) {
 		stop()
 	}
 
-	if replay == nil {
+	if replay == nil && sreplay == nil {
+		r.Floor("streams_completed", 120)
+		r.Floor("stream_replies_after_acks0", 250)
+		r.Floor("stream_reply_pairs_after_acks0", 40)
+		r.Floor("stream_acks0_partition_kinds", 10)
+		r.Floor("stream_acks0_twin_partitions_rejected", 15)
+		r.Floor("stream_acks0_twin_partitions_accepted", 10)
 		r.Floor("advertised_pairs", 120)
 		r.Floor("replies_decoded", 800)
 		r.Floor("replies_flexible_header", 80)
